@@ -32,5 +32,7 @@ def run(chk, ix, tier):
     rules_tags.check_v2_list_form(chk, ix)
     rules_tags.check_v2_renderings(chk, ix, tier)
     rules_tags.check_config_tags(chk, ix)
+    # under auto-detection a list of terms with wildcards (and no keyword) must reach the v2 parser (shared with C08)
+    rules_tags.check_autodetect(chk, ix)
     for r, n in (("T1", 140), ("T2", 3), ("T3", 25), ("T4", 200), ("T5", 4)):
         chk.require_instances(r, n)
